@@ -70,6 +70,9 @@ def run(db, rep, tier):
     rep.rule("R8-ntop-buffer", "text conversion through inet_ntop uses a buffer that holds the longest textual form (46 bytes for IPv6, 16 for "
                                "IPv4) and passes that buffer's own size", 1)
     r8(db, rep)
+    rep.rule("R9-hex-printer", "the hardware-address printer maps every nibble value 0..15 to its hexadecimal digit (both nibbles of an octet, "
+                               "high nibble first)", 2)
+    r9(db, rep)
     rep.explanation = ("NARROW claim for C16: decides membership-as-ordering, operator consistency, hash/equality dependence, "
                        "the rejection discipline of the text parsers (incl. the exact accept set and digit values of the "
                        "hardware-address parser, by evaluating its character tests over all 256 byte values) and the bitwise shape "
@@ -678,3 +681,66 @@ def r8(db, rep):
                 rep.ok("R8-ntop-buffer", key, facts.loc(f, x), "%d-byte buffer, size argument %d >= %d" % (cap, szv, need))
     if n < 1:
         rep.analysis_broken("no inet_ntop call found")
+
+
+def r9(db, rep):
+    from vlib import ieval
+    fs = [f for fid, f in db.functions.items() if fid.startswith("Tins::Internals::hw_address_to_string(") and f.get("body")]
+    if not fs:
+        rep.analysis_broken("Internals::hw_address_to_string vanished")
+        return
+    f = fs[0]
+    # nibble locals: `char x = (j >> 4) & 0x0F` / `char x = j & 0x0F`
+    nibs = []
+    for d in facts.fn_nodes(f):
+        if d["k"] == "VarDecl" and d.get("c"):
+            t = facts.expr_str(d["c"][0]).replace(" ", "")
+            if "&15" in t:
+                nibs.append((d, "high" if ">>4" in t else "low"))
+    if len(nibs) != 2 or sorted(x[1] for x in nibs) != ["high", "low"]:
+        rep.analysis_broken("hw_address_to_string: the two nibble extractions were not recognised (%d)" % len(nibs))
+        return
+    order = []
+    for x in facts.fn_nodes(f):
+        if x["k"] == "CXXOperatorCallExpr" and x.get("cname") == "operator+=" and len(x["c"]) == 3:
+            a = facts.strip_all(x["c"][2])
+            for d, which in nibs:
+                if a.get("var") == d["var"]:
+                    order.append(which)
+    for d, which in nibs:
+        key = "hw_address_to_string:%s-nibble" % which
+        v = d["var"]
+        ifs = []
+        for x in facts.fn_nodes(f):
+            if x["k"] == "IfStmt":
+                real = [y for y in x["c"] if y is not None]
+                if any(y["k"] == "DeclRefExpr" and y.get("var") == v for y in facts.walk(real[0])):
+                    ifs.append((x, real))
+        if len(ifs) != 1 or len(ifs[0][1]) != 3:
+            rep.analysis_broken("%s: digit selection not recognised" % key)
+            continue
+        node, real = ifs[0]
+
+        def delta(b):
+            for y in facts.walk(b):
+                if y["k"] == "CompoundAssignOperator" and y.get("op") == "+=" and facts.strip_all(y["c"][0]).get("var") == v:
+                    return ieval.ev(f, y["c"][1], {})
+            raise ieval.Unknown("no += on the nibble")
+        bad = None
+        try:
+            for n_ in range(16):
+                c = ieval.ev(f, real[0], {v: n_})
+                ch = n_ + (delta(real[1]) if c else delta(real[2]))
+                if chr(ch & 0xff).lower() != "0123456789abcdef"[n_]:
+                    bad = "nibble value %d is printed as %r instead of %r: the textual form no longer parses back to the same address" % (
+                        n_, chr(ch & 0xff), "0123456789abcdef"[n_])
+                    break
+        except ieval.Unknown as e:
+            rep.analysis_broken("%s: outside the finite evaluator: %s" % (key, e))
+            continue
+        if bad:
+            rep.violation("R9-hex-printer", key, facts.loc(f, node), bad)
+        elif order[:2] != ["high", "low"]:
+            rep.violation("R9-hex-printer", key, facts.loc(f, node), "the nibbles are appended in the order %s, not high then low" % order[:2])
+        else:
+            rep.ok("R9-hex-printer", key, facts.loc(f, node), "all 16 values map to their digit; appended high nibble first")
